@@ -647,6 +647,9 @@ OneIdPerConn == \A e1, e2 \in Entries(indexes) : e1[2] = e2[2] => e1[1] = e2[1]
 ConvFresh ==
     \A c \in DOMAIN cache : \A x \in cache[c] :
         \A e \in Visible(indexes) : e[1] = x[1] => e[3] = x[2]
+\* ... which the service guarantees whenever no converter job is in flight (a job that started before an import
+\* writes output of the old data; its completion drops it again: known finding C16.ConvFresh@ConvCompute)
+ConvFreshAtRest == ~flags.conv => ConvFresh
 \* at quiescence every stream matching a tag with an attached converter has output
 ConvComplete ==
     \A t \in DOMAIN tags : \A c \in tags[t].convs : c \in DOMAIN cache =>
